@@ -118,6 +118,51 @@ Theorem c07_keys_are_header_texts : forall (strval : list N -> list N) cv v,
 Proof. exact json_keys_are_header_texts. Qed.
 Print Assumptions c07_keys_are_header_texts.
 
+(* END TO END (Proofs/E2E*.v).  `hview W e json h` is what a renderer sees after
+   the history h of public-API calls (Model/Table.v: building calls in any
+   interleaving plus column property settings) over ARBITRARY items
+   (Model/Cell.v); `twf_hist h`: the building calls form a well-formed history
+   (Spec/History.v).  hist_header / hist_rows / hist_records / hist_ncols are
+   read off the history alone (Spec/TableHist.v); documented_text is C01's
+   text form (Spec/CellText.v). *)
+From Tab Require Import Model.Cell Model.Table Spec.TableHist Spec.CellText Proofs.E2EProofs.
+From Tab Require Import Proofs.E2EJson.
+
+(* The round trip for every table a history can build: the well-formedness of
+   the view is no longer a hypothesis. *)
+Theorem c07_history : forall (W : list N -> nat) (e : env) (json : item -> option (list N)) strenc strval encval (h : list top),
+  twf_hist h ->
+  let v := hview W e json h in
+  encodings_ok strenc strval encval v ->
+  match json_render strenc v with
+  | Ok out =>
+      ~ json_error_condition v
+      /\ parse_json out = Some (json_expected strval (cell_denotation strval encval) v)
+  | Err => json_error_condition v
+  | Panic => False
+  end.
+Proof. exact json_history. Qed.
+Print Assumptions c07_history.
+
+(* ... whose keys' texts are the documented texts of the header items *)
+Theorem c07_history_keys : forall W e json (h : list top), twf_hist h ->
+  map vc_text (header_cells (hview W e json h))
+  = match hist_header h with Some xs => map (documented_text e) xs | None => [] end.
+Proof. exact json_history_texts. Qed.
+Print Assumptions c07_history_keys.
+
+
+(* a column is skipable: its own latest boolean setting, else column 0's *)
+Theorem c07_history_skipable : forall W e json (h : list top) i,
+  twf_hist h -> (i < hist_ncols h)%nat ->
+  eff_skip (hview W e json h) i
+  = match hist_skip h (S i) with
+    | Some (SkBool b) => b
+    | _ => match hist_skip h 0%nat with Some (SkBool b) => b | _ => false end
+    end.
+Proof. exact json_history_skipable. Qed.
+Print Assumptions c07_history_skipable.
+
 (* non-vacuity: keys a, b; column b skipable; a leading, a double and a
    trailing separator; a zero-cell row; an item encoding as {} with text t; the
    encodings of this table satisfy the assumption *)
